@@ -29,16 +29,24 @@ let view_s (v : view) =
 let list_at off l = join [ zs off; zlist_s l ]
 let rbind2 r f = match r with Ok a -> f a | Contract -> Contract | UB k -> UB k | OutOfFuel -> OutOfFuel
 
+(* (view, Char, C string, (pointer,pos,count)) overloads, the three forms WITHOUT pos (the default argument of
+   the declaration, ModelExt.v), the spec function and its defaulted form (SpecExt.v) *)
 let search_family name =
   match name with
-  | "find" -> (find_m, find_c_m, find_p_m, find_pc_m, find_s)
-  | "rfind" -> (rfind_m, rfind_c_m, rfind_p_m, rfind_pc_m, rfind_s)
-  | "ffo" -> (find_first_of_m, find_first_of_c_m, find_first_of_p_m, find_first_of_pc_m, find_first_of_s)
+  | "find" -> ((find_m, find_c_m, find_p_m, find_pc_m, find_s), (find_d_m, find_c_d_m, find_p_d_m, find_d_s))
+  | "rfind" -> ((rfind_m, rfind_c_m, rfind_p_m, rfind_pc_m, rfind_s), (rfind_d_m, rfind_c_d_m, rfind_p_d_m, rfind_d_s))
+  | "ffo" ->
+      ( (find_first_of_m, find_first_of_c_m, find_first_of_p_m, find_first_of_pc_m, find_first_of_s),
+        (find_first_of_d_m, find_first_of_c_d_m, find_first_of_p_d_m, find_first_of_d_s) )
   | "ffno" ->
-      (find_first_not_of_m, find_first_not_of_c_m, find_first_not_of_p_m, find_first_not_of_pc_m, find_first_not_of_s)
-  | "flo" -> (find_last_of_m, find_last_of_c_m, find_last_of_p_m, find_last_of_pc_m, find_last_of_s)
+      ( (find_first_not_of_m, find_first_not_of_c_m, find_first_not_of_p_m, find_first_not_of_pc_m, find_first_not_of_s),
+        (find_first_not_of_d_m, find_first_not_of_c_d_m, find_first_not_of_p_d_m, find_first_not_of_d_s) )
+  | "flo" ->
+      ( (find_last_of_m, find_last_of_c_m, find_last_of_p_m, find_last_of_pc_m, find_last_of_s),
+        (find_last_of_d_m, find_last_of_c_d_m, find_last_of_p_d_m, find_last_of_d_s) )
   | "flno" ->
-      (find_last_not_of_m, find_last_not_of_c_m, find_last_not_of_p_m, find_last_not_of_pc_m, find_last_not_of_s)
+      ( (find_last_not_of_m, find_last_not_of_c_m, find_last_not_of_p_m, find_last_not_of_pc_m, find_last_not_of_s),
+        (find_last_not_of_d_m, find_last_not_of_c_d_m, find_last_not_of_p_d_m, find_last_not_of_d_s) )
   | _ -> raise Not_found
 
 let split_op op =
@@ -51,13 +59,22 @@ let run_case op t =
   let base, variant = split_op op in
   match base with
   | "find" | "rfind" | "ffo" | "ffno" | "flo" | "flno" -> (
-      let fm, fcm, fpm, fpcm, fs = search_family base in
+      let (fm, fcm, fpm, fpcm, fs), (fdm, fcdm, fpdm, fds) = search_family base in
       let h = next_zlist t in
       match variant with
       | "" ->
           let n = next_zlist t in
           let pos = next_z t in
           (res_s zs (fm (view_of h) (view_of n) pos), "ok " ^ zs (fs h n pos))
+      | "d" ->
+          let n = next_zlist t in
+          (res_s zs (fdm (view_of h) (view_of n)), "ok " ^ zs (fds h n))
+      | "cd" ->
+          let c = next_z t in
+          (res_s zs (fcdm (view_of h) c), "ok " ^ zs (fds h [ c ]))
+      | "pd" ->
+          let s = next_zlist t in
+          (res_s zs (fpdm (view_of h) (carr_of s)), "ok " ^ zs (fds h (cstr_s s)))
       | "c" ->
           let c = next_z t in
           let pos = next_z t in
@@ -138,19 +155,50 @@ let run_case op t =
           ( res_s zs (compare4_p_m ck (view_of a) p1 k1 (view_of s) k2),
             opt_s zs (compare3_s ct a p1 k1 (sub0 s Z0 k2)) )
       | _ -> raise Not_found)
-  | "rel" ->
+  | "rel" -> (
+      let bl l = join (List.map bs l) in
       let a = next_zlist t in
       let b = next_zlist t in
-      let va = view_of a and vb = view_of b in
-      let m =
-        rbind2 (op_eq_m ck va vb) (fun e ->
-            rbind2 (op_ne_m ck va vb) (fun ne ->
-                rbind2 (op_lt_m ck va vb) (fun l ->
-                    rbind2 (op_le_m ck va vb) (fun le ->
-                        rbind2 (op_gt_m ck va vb) (fun g ->
-                            rbind2 (op_ge_m ck va vb) (fun ge -> Ok [ e; ne; l; le; g; ge ]))))))
-      in
-      (res_s (fun l -> join (List.map bs l)) m, "ok " ^ join (List.map bs (rel_s ct a b)))
+      match variant with
+      | "" -> (res_s bl (rel6_m ck (view_of a) (view_of b)), "ok " ^ bl (rel_s ct a b))
+      (* C string OP view *)
+      | "pl" -> (res_s bl (rel_pl_m ck (carr_of a) (view_of b)), "ok " ^ bl (rel_s ct (cstr_s a) b))
+      (* view OP C string *)
+      | "pr" -> (res_s bl (rel_pr_m ck (view_of a) (carr_of b)), "ok " ^ bl (rel_s ct a (cstr_s b)))
+      | _ -> raise Not_found)
+  | "front" | "back" ->
+      let h = next_zlist t in
+      let last = z_of_int (List.length h - 1) in
+      (* value and position (offset from data()) of the referenced character *)
+      let f off c = join [ zs c; zs off ] in
+      if base = "front" then (res_s (f Z0) (front_m (view_of h)), opt_s (f Z0) (front_s h))
+      else (res_s (f last) (back_m (view_of h)), opt_s (f last) (back_s h))
+  | "at" ->
+      let h = next_zlist t in
+      let pos = next_z t in
+      let f c = join [ zs c; zs pos ] in
+      (res_s f (index_m (view_of h) pos), opt_s f (index_s h pos))
+  | "ctor" when variant = "it" ->
+      (* basic_string_view(first, last) views exactly [first, last) *)
+      let h = next_zlist t in
+      ("ok " ^ view_s (view_of h), "ok " ^ list_at Z0 h)
+  | "swap" ->
+      let a = next_zlist t in
+      let b = next_zlist t in
+      let x, y = swap_m (view_of a) (view_of b) in
+      (join [ "ok"; view_s x; "ok"; view_s y ], join [ "ok"; list_at Z0 b; "ok"; list_at Z0 a ])
+  | "substr" when variant = "d0" ->
+      let h = next_zlist t in
+      (res_s view_s (substr_d0_m (view_of h)), opt_s (list_at Z0) (substr_d0_s h))
+  | "substr" when variant = "d1" ->
+      let h = next_zlist t in
+      let pos = next_z t in
+      (res_s view_s (substr_d1_m (view_of h) pos), opt_s (list_at pos) (substr_d1_s h pos))
+  | "copy" when variant = "d" ->
+      let h = next_zlist t in
+      let cnt = next_z t in
+      let f (r, l) = join [ zs r; zlist_s l ] in
+      (res_s f (copy_d_m (view_of h) cnt), opt_s f (copy_d_s h cnt))
   | "substr" ->
       let h = next_zlist t in
       let pos = next_z t in
